@@ -215,7 +215,15 @@ def compare_model(ctx, jm, m_in, m_out):
         ok = data == bytes(np.asarray(src, dtype=np.uint8).tobytes())
       else:
         p = ctx.params[jb[1]]
-        ok = data == pack_ref(p.num_bits, p.quantized_data)
+        exp_b = pack_ref(p.num_bits, p.quantized_data)
+        ok = data == exp_b
+        qd = np.asarray(p.quantized_data)
+        if not ok and qd.dtype == np.float16 and len(data) == len(exp_b):
+          # parameter classes are VALUE classes (Python ==, as the code compares them): two
+          # float16 constants that differ only in the sign of a zero are one class, and the
+          # class representative's bytes may carry the other sign
+          ok = np.array_equal(np.frombuffer(data, dtype=np.float16), np.frombuffer(exp_b, dtype=np.float16),
+                              equal_nan=True)
       if not ok:
         diffs.append(f'buffer {bi}: bytes differ from model {jb}')
   exp_sigs = [[int(sd.subgraphIndex), [int(t.tensorIndex) for t in sd.inputs],
